@@ -8,13 +8,13 @@ CHECKS = {
  "C01": dict(
   technique="source-level symbolic execution of the nom grammar (syn dump -> PEG with nom semantics -> QF_BV) + SMT (z3), one query per exact input length; counterexamples replayed on the real build",
   category="model_checking",
-  text="For every string of <= N Unicode scalar values (N=12 quick / 18 thorough) and every instantiation of the template families (DTD declarations, XML declaration, attributes, PI/comment/CDATA) z3 decides: the strict reference language (XML 1.0 5e + QName syntax, supported profile) is contained in {x : xml_parser::document consumes x and the info-level reference checks pass}. The encoding is regenerated from /repo on each run; any model is replayed through XmlDocument::from_raw before it is reported.",
+  text="For every string of <= N Unicode scalar values (N=14 quick / 17 thorough) and every instantiation of the template families (DTD declarations, XML declaration, attributes, PI/comment/CDATA) z3 decides: the strict reference language (XML 1.0 5e + QName syntax, supported profile) is contained in {x : xml_parser::document consumes x and the info-level reference checks pass}. The encoding is regenerated from /repo on each run; any model is replayed through XmlDocument::from_raw before it is reported.",
   note="Bounded: nothing is claimed for longer documents outside the templates. Grammar layer only: item construction (XmlDocument::new beyond reference checks), entity expansion, DOM views and the captures->infoset mapping are outside. Trusted: nom combinator models (validated against the real parser on the corpus + random mutations on every run), reference grammar (self-tested on its corpus, expat second opinion on ASCII witnesses).",
   design="3/C01"),
  "C02": dict(
   technique="source-level symbolic execution of the nom grammar + info reject rules (syn dump -> QF_BV) + SMT (z3), one query per exact input length; known-finding classes as reference relaxations; counterexamples replayed on the real build",
   category="model_checking",
-  text="For every string of <= N scalar values (N=12/18) and every template instantiation z3 decides: document(x) consumes all of x and info accepts => x is in the lenient reference language (tag match, unique attributes, legal names/chars/char refs, no '<'/'&' in values, comment/CDATA/PI syntax, declared entities, one root, XMLDecl first, reserved PI target). Listed known-finding classes are excluded by switching the corresponding reference constraint off and are re-witnessed and replayed on every run.",
+  text="For every string of <= N scalar values (N=14/17) and every template instantiation z3 decides: document(x) consumes all of x and info accepts => x is in the lenient reference language (tag match, unique attributes, legal names/chars/char refs, no '<'/'&' in values, comment/CDATA/PI syntax, declared entities, one root, XMLDecl first, reserved PI target). Listed known-finding classes are excluded by switching the corresponding reference constraint off and are re-witnessed and replayed on every run.",
   note="Bounded as C01. The xq/xe callers' rest-is-empty test is not part of this check. Trusted base as C01.",
   design="3/C02"),
 
